@@ -263,6 +263,75 @@ def rule_f_no_hidden_state(ctx, fns):
     return n
 
 
+def rule_g_setup_rebuilds_derived_data(ctx, fns):
+    """Data that apply/undo/get_bin_efficiency read and that set_up() derives from the object's inputs (e.g. the efficiency data built
+    from the components) must be rebuilt by EVERY successful set_up(): the inputs can be changed in place between two set_up() calls
+    (non-const accessors), so a set_up() that skips the rebuild when 'nothing seems to have changed' leaves stale factors."""
+    byqn = {}
+    for f in fns:
+        if f.body is not None:
+            byqn.setdefault(f.qn, []).append(f)
+
+    def closure(roots):
+        seen, todo, out = set(), list(roots), []
+        while todo:
+            f = todo.pop()
+            k = (f.qn, f.sig)
+            if k in seen:
+                continue
+            seen.add(k)
+            out.append(f)
+            for c in f.calls():
+                if c.k == "CXXMemberCallExpr" and c.c and c.c[0].k == "CXXThisExpr" and c.callee in byqn:
+                    todo += [g for g in byqn[c.callee] if g.cls == f.cls]
+        return out
+
+    def fields_read(fs):
+        return {m.get("n") for f in fs for m in f.walk() if m.k == "MemberExpr" and m.get("mk") == "field" and m.c and m.c[0].k == "CXXThisExpr"}
+
+    def fields_written(f):
+        out = set()
+        for m in f.walk():
+            for e in written_lvalues(m):
+                e2 = e.strip()
+                if e2.k == "MemberExpr" and e2.get("mk") == "field" and e2.c and e2.c[0].k == "CXXThisExpr":
+                    if m.k == "CXXMemberCallExpr" and "*" in (e2.type or "").split("<")[0]:
+                        continue
+                    out.add(e2.get("n"))
+        return out
+
+    n = 0
+    classes = sorted({f.cls for f in fns if f.cls and "BinNormalisation" in f.cls})
+    for cls in classes:
+        users = closure([f for f in fns if f.cls == cls and f.body is not None and f.short in ("apply", "undo", "get_bin_efficiency")])
+        sus = [f for f in fns if f.cls == cls and f.short == "set_up" and f.body is not None and f.cfg_raw]
+        if not users or not sus:
+            continue
+        used = fields_read(users)
+        for su in sus:
+            cfg = CFG(su)
+            callees = {}
+            for c in su.calls():
+                if c.k == "CXXMemberCallExpr" and c.c and c.c[0].k == "CXXThisExpr" and c.callee in byqn and c.i in cfg.pos:
+                    w = set()
+                    for g in closure([g for g in byqn[c.callee] if g.cls == cls]):
+                        w |= fields_written(g)
+                    callees[c.i] = w
+            direct = fields_written(su)
+            derived = sorted(x for x in used & (direct | set().union(*callees.values()) if callees else used & direct) if x not in ("_already_set_up", "proj_data_info_sptr", "exam_info_sptr"))
+            yes = [r for r in cfg.return_nodes() if r.c and "Succeeded::yes" in key(r.c[0])]
+            for fld in derived:
+                def writes(m, fld=fld):
+                    if m.i in callees and fld in callees[m.i]:
+                        return True
+                    return any(e.strip().k == "MemberExpr" and e.strip().get("n") == fld and e.strip().c and e.strip().c[0].k == "CXXThisExpr" for e in written_lvalues(m))
+
+                w = cfg.paths_avoiding([(cfg.entry, -1)], writes, target_pred=lambda x: x.i in {r.i for r in yes}, to_exit=False) if yes else None
+                ctx.ob("C13.g-setup-rebuilds-derived-data", su.qn + "(" + su.sig[:30] + ")", "field:" + fld, w is None, su.where(), "every successful set_up() rebuilds %s (which apply/undo/get_bin_efficiency read)" % fld if w is None else "a set_up() can succeed without rebuilding %s, which apply/undo/get_bin_efficiency read: factors changed in place since the previous set_up() are ignored" % fld)
+                n += 1
+    return n
+
+
 def run(ctx):
     ctx.explanation = (
         "Decides, for every BinNormalisation class compiled in this build: (a) apply and undo are duals - the argument is modified the "
@@ -284,6 +353,8 @@ def run(ctx):
     rule_c_check_first(ctx, fns)
     rule_d_setup(ctx, fns)
     rule_e_trivial(ctx, units)
+    rule_g_setup_rebuilds_derived_data(ctx, fns)
+    ctx.require_count("C13.g-setup-rebuilds-derived-data", 2)
     rule_f_no_hidden_state(ctx, fns)
     ctx.require_count("C13.f-no-hidden-state", 25)
     ctx.require_count("C13.a-apply-undo-dual", 10)
